@@ -45,6 +45,9 @@ CLAIMED = {
  'C13': ('bounded exhaustive enumeration of association graphs, sources and filter tuples on the real mock server against a brute-force reference read from the raw instance store',
          'All graphs with at most 2 (3) association instances out of 44 (57) candidates over binary, subclassed, same-class and ternary associations incl. self-associations, NULL ends and cross-namespace ends; every instance and class as source; filter tuples (AssocClass, ResultClass, Role, ResultRole) from existing/case-variant/sub/superclass/non-existing names with a total budget on filters set; AssociatorNames/Associators/ReferenceNames/References and reduced Open/Iter variants. Oracles: Names == paths of the full operation, brute-force reference model, adding a filter never adds results, symmetry with mirrored roles.',
          'trusts mc/refmodels/assoc.py; class-level semantics are only checked for names-vs-full and monotonicity (the statement is silent beyond that)', '§5 C13'),
+ 'C17': ('bounded exhaustive deviation enumeration of HTTP requests (total deviation budget over request line, headers, body) and exhaustive short request histories on the real request handler',
+         'Every request that differs from a valid ExportIndication POST in at most 2 (3) dimensions - method, target, version, 17 headers with 2-14 alternatives each (absent, accepted and rejected forms, 8-bit, folded, huge, duplicated), body (every single structural deviation, prefix truncation, byte replacement at every offset, whole-body alternatives, parameter variants) - is given to the real ListenerRequestHandler on an in-memory socket; the bytes written must parse as exactly one HTTP response (independent parser: status line, token: value header lines without bare CR/LF, only known headers, body of Content-Length bytes), 200 bodies must be DTD-valid export responses, pywbem 400/406 responses need a CIMError header, an acknowledged indication is delivered exactly once, a rejected one never; after every request and every history of 1-2 (3) representative requests (unbounded and bounded queue, with and without draining) a valid indication is still acknowledged and delivered once.',
+         'in-memory socket (complete delivery, short reads instead of blocking); HTTP/0.9-style requests and responses generated by the stdlib before pywbem code runs only need to be harmless; threading aspects are C16', '§5 C17'),
 }
 NOT_YET = 'check not built yet in this round (planned, see DESIGN.md §5); not claimed until it exists'
 
